@@ -210,6 +210,10 @@ pub enum Spell {
     Slash,
     /// a//b
     DoubleSlash,
+    /// <dir>/.  (directories only): cp copies the directory's contents onto the destination itself
+    SlashDot,
+    /// <dir>/.xvd/..  (directories only; the caller creates the empty directory .xvd inside): same meaning
+    ChildDotDot,
 }
 
 pub fn spell(p: &[u8], s: Spell, root_abs: &[u8], is_dir: bool) -> Vec<u8> {
@@ -232,11 +236,25 @@ pub fn spell(p: &[u8], s: Spell, root_abs: &[u8], is_dir: bool) -> Vec<u8> {
             v.extend_from_slice(p);
             v
         }
+        Spell::SlashDot => {
+            if is_dir {
+                join(p, b".")
+            } else {
+                p.to_vec()
+            }
+        }
+        Spell::ChildDotDot => {
+            if is_dir {
+                join(p, b".xvd/..")
+            } else {
+                p.to_vec()
+            }
+        }
     }
 }
 
 pub fn any_spell() -> BoxedStrategy<Spell> {
-    prop_oneof![6 => Just(Spell::Plain), 1 => Just(Spell::DotSlash), 1 => Just(Spell::Abs), 1 => Just(Spell::DotDot), 1 => Just(Spell::Slash), 1 => Just(Spell::DoubleSlash)].boxed()
+    prop_oneof![6 => Just(Spell::Plain), 1 => Just(Spell::DotSlash), 1 => Just(Spell::Abs), 1 => Just(Spell::DotDot), 1 => Just(Spell::Slash), 1 => Just(Spell::DoubleSlash), 1 => Just(Spell::SlashDot), 1 => Just(Spell::ChildDotDot)].boxed()
 }
 
 /// Standard bystanders present in every tree-shaped case.
